@@ -10,17 +10,24 @@ Clauses checked on every call  d, gnew, crvmin = trsbox(xopt, g, H, sl, su, delt
   (nan/inf in the output, or an exception for legal input)                    C12:nonfinite_output / C12:exception
 """
 import math
+import os
+for _v in ('OMP_NUM_THREADS', 'OPENBLAS_NUM_THREADS', 'MKL_NUM_THREADS'):   # tiny matrices: BLAS threads only cost time
+    os.environ.setdefault(_v, '1')                                       # (effective when numpy is not yet imported)
 import numpy as np
 
 PID = 'C12'
 RULE = ("Each case draws n in 1..8; g = N(0,1)^n * 10^U(-3,3) (8%: some components exactly 0, 2%: g = 0; for PSD H half of "
         "the cases use g = 2 J'r as the solver does); H one of fullrank (2 J'J, m>=n), rankdef (2 J'J, m<n), zero, indef "
         "(random symmetric) times 10^U(-2,2); delta = 10^U(-4,4); xopt = 0 or N(0,1)*10^U(-2,2); every lower and upper "
-        "bound independently active (== xopt), nearly active (1e-12..1e-3 times delta or times 1 away), far "
+        "bound independently active (== xopt; per-case probability 0/.1/.25/.5), nearly active (1e-12..1e-3 times delta or times 1 away; per-case probability 0/.1/.25), far "
         "(delta*10^U(-1,2) away) or absent (+-1e20); 3% of coordinates get sl == xopt == su.  All draws come from "
-        "numpy.random.default_rng((seed, task_index)).  A case is NON-TRIVIAL when at least one bound is active or nearly "
-        "active at xopt, or H is rank-deficient/zero/indefinite, or the returned step ends on the trust-region boundary "
-        "or on a bound (i.e. anything but the interior Newton step of a positive definite model in a far box).")
+        "numpy.random.default_rng((seed, task_index)); bounds further than 1e-3*max(delta,1) from xopt are multiplied by "
+        "1+U(-1e-3,1e-3) so that their bit patterns are unrelated to xopt.  A case is NON-TRIVIAL when at least one bound "
+        "is active or nearly active (gap <= 1e-3*max(delta,1)) at xopt and the returned step is non-zero.  stats also give, "
+        "per H kind, how many steps ended on the trust-region boundary / on a bound / went through the boundary refinement. "
+        "Tolerances: none for the box; 1e-8 relative for the radius; for the model value, Cauchy and gnew clauses a rounding "
+        "allowance 1e-11*(|g|.|d| + 0.5|d|'|H||d|) + 4*|g+Hd|.rho resp. 4*max(|H| rho) with rho = eps*(|xopt|+|d|) "
+        "(d is returned as fl(fl(xopt+d0)-xopt)), plus 1e-8*|q(dC)| resp. 1e-8*(|g|+|H||d|).")
 
 EPS = 2.0 ** -52
 
@@ -97,8 +104,12 @@ def gen_case(rng):
     sl = np.empty(n)
     su = np.empty(n)
 
+    pa = float(rng.choice([0.0, 0.1, 0.25, 0.5]))   # per case: probability that a given bound is active ...
+    pn = float(rng.choice([0.0, 0.1, 0.25]))        # ... nearly active; the rest is far (60%) or absent (40%)
+    pr = 1.0 - pa - pn
+
     def dist():
-        k = int(rng.choice(4, p=[0.25, 0.25, 0.3, 0.2]))
+        k = int(rng.choice(4, p=[pa, pn, 0.6 * pr, 0.4 * pr]))
         if k == 0:
             return 0.0
         if k == 1:
@@ -241,13 +252,13 @@ def check_case(c):
     on_bd = int(np.sum(((xn <= sl) | (xn >= su)) & (d != 0.0)))
     info = dict(nact=nact, nnear=nnear, on_tr=bool(on_tr), on_bd=on_bd, alt=(crvmin == 0.0), zero_step=(nd == 0.0),
                 cauchy=which, q=q, qC=qC,
-                nontrivial=bool(nact > 0 or nnear > 0 or c['hkind'] != 'fullrank' or on_tr or on_bd > 0))
+                nontrivial=bool((nact > 0 or nnear > 0) and nd > 0.0))
     return viol, info
 
 
 # ---------------------------------------------------------------------------------------------- interface
 def tasks(seed, tier):
-    ntask, ncase = (64, 250) if tier == 'quick' else (640, 500)
+    ntask, ncase = (64, 500) if tier == 'quick' else (640, 1000)
     return [dict(pid=PID, seed=int(seed), i=i, ncases=ncase) for i in range(ntask)]
 
 
@@ -264,7 +275,9 @@ def run_task(task):
         vs, info = check_case(c)
         for x in vs:
             x['data']['task'] = dict(seed=task['seed'], i=task['i'], case=k)
-        viols.extend(vs[:3] if len(viols) < 40 else [])
+        for x in vs:      # at most 5 recorded violations per signature and task (all are counted in stats)
+            if sum(1 for y in viols if y['signature'] == x['signature']) < 5:
+                viols.append(x)
         for x in vs:
             _bump(stats, 'violations:' + x['signature'])
         _bump(stats, 'n=%d' % c['xopt'].size)
@@ -279,8 +292,12 @@ def run_task(task):
         for key in ('on_tr', 'alt', 'zero_step'):
             if info[key]:
                 _bump(stats, 'result:' + key)
+                _bump(stats, 'H:%s/result:%s' % (c['hkind'], key))
         if info['on_bd']:
             _bump(stats, 'result:on_bound')
+            _bump(stats, 'H:%s/result:on_bound' % c['hkind'])
+        if info['nontrivial']:
+            _bump(stats, 'nontrivial/H:' + c['hkind'])
         if info['q'] < info['qC'] * (1 + 1e-6) - 1e-300:
             _bump(stats, 'result:strictly_better_than_cauchy')
         if info['nontrivial']:
